@@ -74,6 +74,26 @@ Theorem C10_invariant : forall p0 pol ph pt ns rp S P' acc,
 Proof. exact ungroup_doc_items. Qed.
 Print Assumptions C10_invariant.
 
+(* a note lying inside a joined hold on its column - i.e. after the tails before it have been emitted, a pending tail
+   still sits on its column - makes ungroup raise, pass it through or drop it, as its option says, for every list of
+   items and every state of the pending tails *)
+Theorem C10_inside_hold_policy : forall i rest pend acc acc1 pend1,
+  pop_before (item_head i) pend acc = (acc1, pend1) -> col_pending (item_head i) pend1 = true ->
+  let pend2 := match i with Plain _ => pend1 | Joined h tb => push_sorted (tail_note h tb) pend1 end in
+  ungroup_go Raise (i :: rest) pend acc = UErrOrphan (item_head i) /\
+  ungroup_go Keep (i :: rest) pend acc = ungroup_go Keep rest pend2 (item_head i :: acc1) /\
+  ungroup_go Drop (i :: rest) pend acc = ungroup_go Drop rest pend2 acc1.
+Proof. intros i rest pend acc acc1 pend1 Hp Hc. cbn [ungroup_go]. rewrite Hp, Hc. repeat split; reflexivity. Qed.
+Print Assumptions C10_inside_hold_policy.
+
+Theorem C10_inside_means_pending_tail_on_column : forall n pend,
+  col_pending n pend = true <-> exists t, In t pend /\ ncol t = ncol n.
+Proof.
+  intros n pend. unfold col_pending. rewrite existsb_exists. split; intros [t [Ht Hc]]; exists t; split; try assumption;
+    [apply Z.eqb_eq; exact Hc|apply Z.eqb_eq; exact Hc].
+Qed.
+Print Assumptions C10_inside_means_pending_tail_on_column.
+
 (* a note inside a joined hold on its column: raise / keep / drop *)
 Definition h0 : note := {| nb_n := 0; nb_d := 1; ncol := 0; ntype := 50%N; nplayer := 0; nks := Some 5%Z |}.
 Definition mine : note := {| nb_n := 2; nb_d := 1; ncol := 0; ntype := 77%N; nplayer := 0; nks := None |}.
